@@ -734,26 +734,46 @@ theorem isEqKeyL_prec : ∀ ps : List Spec, isEqKeyL ps = true → precedenceL p
       simp [precedenceL, isEqKey_prec p h.1, isEqKeyL_prec ps h.2]
 end
 
-theorem required_eq (es : List (KeyKind × Spec × Spec)) (i : Nat) (h : keysOKD es = true) :
+mutual
+theorem prec_zero_iff : ∀ s : Spec, hashableSpec s = true → (precedence s == 0) = isEqKey s
+  | .lit _, _ => by simp [precedence, isEqKey]
+  | .tuple ps, h => by
+      simp only [hashableSpec] at h
+      simp only [precedence, isEqKey]; exact precL_zero_iff ps h
+  | .fset ps, h => by
+      simp only [hashableSpec] at h
+      simp only [precedence, isEqKey]; exact precL_zero_iff ps h
+  | .ty _, _ => by simp [precedence, isEqKey]
+  | .list _, h | .set _, h | .dict _, h | .mtype, h | .msub _, h => by simp [hashableSpec] at h
+  | .t _, _ | .val _, _ | .mexpr .., _ | .and .., _ | .or .., _ | .not _, _
+  | .switch .., _ | .check _, _ | .regex .., _ | .matchS .., _ | .pred .., _ => by
+      simp [precedence, isEqKey]
+theorem precL_zero_iff : ∀ ps : List Spec, hashableSpecL ps = true → (precedenceL ps == 0) = isEqKeyL ps
+  | [], _ => by simp [precedenceL, isEqKeyL]
+  | p :: ps, h => by
+      simp only [hashableSpecL, Bool.and_eq_true] at h
+      have h1 := prec_zero_iff p h.1
+      have h2 := precL_zero_iff ps h.2
+      simp only [precedenceL, isEqKeyL, ← h1, ← h2]
+      cases hp : precedence p <;> cases hq : precedenceL ps <;> simp
+end
+
+/-- keys of a dict pattern that Python could build are hashable -/
+def keysHashable : List (KeyKind × Spec × Spec) → Bool
+  | [] => true
+  | (_, k, _) :: r => hashableSpec k && keysHashable r
+
+theorem required_eq (es : List (KeyKind × Spec × Spec)) (i : Nat) (h : keysHashable es = true) :
     requiredIdx es i = requiredRef es i := by
   induction es generalizing i with
   | nil => rfl
   | cons e es ih =>
     obtain ⟨kind, k, v⟩ := e
-    simp only [keysOKD, Bool.and_eq_true] at h
-    obtain ⟨⟨⟨h1, _⟩, _⟩, h4⟩ := h
-    simp only [requiredIdx, requiredRef, ih (i + 1) h4]
+    simp only [keysHashable, Bool.and_eq_true] at h
+    simp only [requiredIdx, requiredRef, ih (i + 1) h.2]
     congr 1
     cases kind with
-    | plain =>
-      simp only [Bool.or_eq_true, bne_iff_ne, ne_eq] at h1
-      cases he : isEqKey k
-      · have : precedence k ≠ 0 := by
-          rcases h1 with h1 | h1
-          · exact h1
-          · rw [he] at h1; exact absurd h1 (by simp)
-        simp [this]
-      · simp [isEqKey_prec k he]
+    | plain => simp only [prec_zero_iff k h.1]
     | opt d => rfl
     | req => rfl
 
@@ -796,12 +816,28 @@ theorem ctorErrC_cons {k v : Spec} {r : List (Spec × Spec)} (h : ctorErrC ((k, 
 
 theorem ctorErrD_cons {kind : KeyKind} {k v : Spec} {r : List (KeyKind × Spec × Spec)}
     (h : ctorErrD ((kind, k, v) :: r) = none) :
-    ctorErr k = none ∧ ctorErr v = none ∧ ctorErrD r = none := by
+    ctorErr k = none ∧ ctorErr v = none ∧ ctorErrD r = none ∧ hashableSpec k = true := by
   simp only [ctorErrD] at h
   obtain ⟨h1, h2⟩ := orElse_none h
   obtain ⟨h3, h4⟩ := orElse_none h1
-  obtain ⟨h5, _⟩ := orElse_none h3
-  exact ⟨h5, h4, h2⟩
+  obtain ⟨h5, h6⟩ := orElse_none h3
+  refine ⟨h5, h4, h2, ?_⟩
+  cases hh : hashableSpec k
+  · simp [hh] at h6
+  · rfl
+
+theorem ctorErrD_hashable {es : List (KeyKind × Spec × Spec)} (h : ctorErrD es = none) :
+    keysHashable es = true := by
+  induction es with
+  | nil => rfl
+  | cons e es ih =>
+    obtain ⟨kind, k, v⟩ := e
+    obtain ⟨_, _, h3, h4⟩ := ctorErrD_cons h
+    simp [keysHashable, h4, ih h3]
+
+theorem ctorErr_setlike {cs : List Spec} (h : ((ctorErrL cs).orElse
+    (fun _ => if hashableSpecL cs then none else some (⟨"TypeError"⟩ : PyExc))) = none) :
+    ctorErrL cs = none := (orElse_none h).1
 
 /-! ### the refinement: the code-shaped evaluator computes the denotation -/
 
@@ -810,20 +846,20 @@ variable {env : Env} (hw : WFacts env)
 include hw
 
 mutual
-theorem eval_rel : ∀ (s : Spec) (t : V), ctorErr s = none → keysOK s = true →
+theorem eval_rel : ∀ (s : Spec) (t : V), ctorErr s = none →
     Rel env (eval env s t) (denote env.cls s t)
-  | .t e, t, _, _ => by
+  | .t e, t, _ => by
     simp only [eval, denote, tRes, vaccess]
     cases tGet e t with
     | none => exact Rel.mk_rej [] hw.pae_ok
     | some v => exact Rel.mk_ok v []
-  | .val v, t, _, _ => by simp only [eval, denote]; exact Rel.mk_ok v []
-  | .mtype, t, _, _ => by
+  | .val v, t, _ => by simp only [eval, denote]; exact Rel.mk_ok v []
+  | .mtype, t, _ => by
     simp only [eval, denote, vcond]
     cases truthy t
     · exact raise_rel hw "_MType.glomit" 0 .comb [] (by simp [siteOrigins])
     · exact Rel.mk_ok t []
-  | .msub e, t, _, _ => by
+  | .msub e, t, _ => by
     simp only [eval, denote, tRes, vaccess]
     cases tGet e t with
     | none => exact Rel.mk_rej [] hw.pae_ok
@@ -832,20 +868,20 @@ theorem eval_rel : ∀ (s : Spec) (t : V), ctorErr s = none → keysOK s = true 
       cases truthy m
       · exact raise_rel hw "_MSubspec.glomit" 0 .comb [] (by simp [siteOrigins])
       · exact Rel.mk_ok t []
-  | .mexpr l op r, t, _, _ => by
+  | .mexpr l op r, t, _ => by
     simp only [eval]; exact mexpr_rel hw l op r t
-  | .and cs d, t, hc, hk => by
+  | .and cs d, t, hc => by
     obtain ⟨hcl, _⟩ := ctorErr_and hc
     simp only [eval, denote]
     exact default_rel hw "_Bool.glomit" (by simp [catchSites]) d t
-      (evalAnd_rel cs t t hcl (by simpa [keysOK] using hk))
-  | .or cs d, t, hc, hk => by
+      (evalAnd_rel cs t t hcl)
+  | .or cs d, t, hc => by
     obtain ⟨hcl, hne⟩ := ctorErr_or hc
     simp only [eval, denote]
     exact default_rel hw "_Bool.glomit" (by simp [catchSites]) d t
-      (evalOr_rel cs t hne hcl (by simpa [keysOK] using hk))
-  | .not c, t, hc, hk => by
-    have ih := eval_rel c t (by simpa [ctorErr] using hc) (by simpa [keysOK] using hk)
+      (evalOr_rel cs t hne hcl)
+  | .not c, t, hc => by
+    have ih := eval_rel c t (by simpa [ctorErr] using hc)
     simp only [eval, denote]
     rcases ih.cases with ⟨a, l, h1, h2⟩ | ⟨e, og, l, h1, h2, hcl⟩ | ⟨e, l, h1, h2, hg⟩
     · simp only [h1, h2]
@@ -854,16 +890,16 @@ theorem eval_rel : ∀ (s : Spec) (t : V), ctorErr s = none → keysOK s = true 
       exact Rel.mk_ok t l
     · simp only [h1, h2, catch_glom hw "Not.glomit" (by simp [catchSites]), hg]
       exact Rel.mk_fault l hg
-  | .switch cases d, t, hc, hk => by
+  | .switch cases d, t, hc => by
     simp only [eval, denote]
-    exact evalSwitch_rel cases d t (ctorErr_switch hc) (by simpa [keysOK] using hk)
-  | .check a, t, hc, _ => by
+    exact evalSwitch_rel cases d t (ctorErr_switch hc)
+  | .check a, t, hc => by
     simp only [ctorErr] at hc
     simp only [eval, denote]
     cases hi : checkInit a with
     | error e => rw [hi] at hc; simp at hc
     | ok o => exact checkGlomit_rel hw a o hi t
-  | .regex items f, t, _, _ => by
+  | .regex items f, t, _ => by
     simp only [eval, denote]
     cases t with
     | str s =>
@@ -872,21 +908,21 @@ theorem eval_rel : ∀ (s : Spec) (t : V), ctorErr s = none → keysOK s = true 
       · exact raise_rel hw "Regex.glomit" 1 .comb [] (by simp [siteOrigins])
       · exact Rel.mk_ok _ []
     | _ => exact raise_rel hw "Regex.glomit" 0 .comb [] (by simp [siteOrigins])
-  | .matchS s d, t, hc, hk => by
+  | .matchS s d, t, hc => by
     simp only [eval, denote]
     exact default_rel hw "Match.glomit" (by simp [catchSites]) d t
-      (eval_rel s t (by simpa [ctorErr] using hc) (by simpa [keysOK] using hk))
-  | .ty n, t, _, _ => by
+      (eval_rel s t (by simpa [ctorErr] using hc))
+  | .ty n, t, _ => by
     simp only [eval, denote]
     cases isInst env.cls t n
     · exact raise_rel hw "_glom_match/type" 0 .typ [] (by simp [siteOrigins])
     · exact Rel.mk_ok t []
-  | .lit v, t, _, _ => by
+  | .lit v, t, _ => by
     simp only [eval, denote, vcond]
     cases pyEq t v
     · exact raise_rel hw "_glom_match/ne" 0 .comb [] (by simp [siteOrigins])
     · exact Rel.mk_ok t []
-  | .pred id fn, t, _, _ => by
+  | .pred id fn, t, _ => by
     simp only [eval, denote]
     cases hp : predApply fn t with
     | ret v =>
@@ -897,49 +933,45 @@ theorem eval_rel : ∀ (s : Spec) (t : V), ctorErr s = none → keysOK s = true 
     | raise c =>
       simp only [catch_exc hw "_glom_match/callable" (by simp [catchSites]), pred_is_exc hw hp, if_true]
       exact raise_rel hw "_glom_match/callable" 0 .comb [id] (by simp [siteOrigins])
-  | .list alts, t, hc, hk => by
+  | .list alts, t, hc => by
     simp only [eval, denote]
     cases t with
     | list items =>
       exact finish_map_rel (itemsLoop_rel hw alts.isEmpty (evalAlts env alts) (denAlt env.cls alts)
-        (fun item last => evalAlts_rel alts item last (by simpa [ctorErr] using hc)
-          (by simpa [keysOK] using hk)) items none) V.list
+        (fun item last => evalAlts_rel alts item last (by simpa [ctorErr] using hc)) items none) V.list
     | _ => exact raise_rel hw "_glom_match/listlike" 0 .typ [] (by simp [siteOrigins])
-  | .set alts, t, hc, hk => by
+  | .set alts, t, hc => by
     simp only [eval, denote]
     cases t with
     | set items =>
       exact finish_bind_rel (itemsLoop_rel hw alts.isEmpty (evalAlts env alts) (denAlt env.cls alts)
-        (fun item last => evalAlts_rel alts item last (by simpa [ctorErr] using hc)
-          (by simpa [keysOK] using hk)) items none) _ _ (mkSet_rel hw false)
+        (fun item last => evalAlts_rel alts item last (ctorErr_setlike (by simpa [ctorErr] using hc))) items none) _ _ (mkSet_rel hw false)
     | _ => exact raise_rel hw "_glom_match/listlike" 0 .typ [] (by simp [siteOrigins])
-  | .fset alts, t, hc, hk => by
+  | .fset alts, t, hc => by
     simp only [eval, denote]
     cases t with
     | fset items =>
       exact finish_bind_rel (itemsLoop_rel hw alts.isEmpty (evalAlts env alts) (denAlt env.cls alts)
-        (fun item last => evalAlts_rel alts item last (by simpa [ctorErr] using hc)
-          (by simpa [keysOK] using hk)) items none) _ _ (mkSet_rel hw true)
+        (fun item last => evalAlts_rel alts item last (ctorErr_setlike (by simpa [ctorErr] using hc))) items none) _ _ (mkSet_rel hw true)
     | _ => exact raise_rel hw "_glom_match/listlike" 0 .typ [] (by simp [siteOrigins])
-  | .tuple ps, t, hc, hk => by
+  | .tuple ps, t, hc => by
     simp only [eval, denote]
     cases t with
     | tuple items =>
       simp only
       split
       · exact raise_rel hw "_glom_match/tuple" 1 .comb [] (by simp [siteOrigins])
-      · exact finish_map_rel (evalZip_rel ps items (by simpa [ctorErr] using hc)
-          (by simpa [keysOK] using hk)) V.tuple
+      · exact finish_map_rel (evalZip_rel ps items (by simpa [ctorErr] using hc)) V.tuple
     | _ => exact raise_rel hw "_glom_match/tuple" 0 .typ [] (by simp [siteOrigins])
-  | .dict es, t, hc, hk => by
+  | .dict es, t, hc => by
     simp only [eval, denote]
     cases t with
     | dict items =>
       have hcd : ctorErrD es = none := by simpa [ctorErr] using hc
-      have hkd : keysOKD es = true := by simpa [keysOK] using hk
+      have hkd : keysHashable es = true := ctorErrD_hashable hcd
       rw [required_eq es 0 hkd]
       have hl := dictLoop_rel hw (dictFind env es 0) (denKey env.cls es 0)
-        (fun k v => dictFind_rel es 0 k v hcd hkd) (requiredRef es 0) items [] (requiredRef es 0) []
+        (fun k v => dictFind_rel es 0 k v hcd) (requiredRef es 0) items [] (requiredRef es 0) []
         (List.filter_eq_self.mpr (by simp)).symm
       obtain ⟨hl1, hl2⟩ := hl
       simp only
@@ -980,74 +1012,68 @@ theorem eval_rel : ∀ (s : Spec) (t : V), ctorErr s = none → keysOK s = true 
               · exact ⟨hw.raise_ok ("_handle_dict", 2, .comb) (by simp [siteOrigins]), hl1⟩
     | _ => exact raise_rel hw "_handle_dict" 0 .typ [] (by simp [siteOrigins])
 
-theorem evalAnd_rel : ∀ (cs : List Spec) (t r : V), ctorErrL cs = none → keysOKL cs = true →
+theorem evalAnd_rel : ∀ (cs : List Spec) (t r : V), ctorErrL cs = none →
     Rel env (evalAnd env cs t r) (denAll env.cls cs t r)
-  | [], t, r, _, _ => by simp only [evalAnd, denAll]; exact Rel.mk_ok r []
-  | c :: cs, t, r, hc, hk => by
+  | [], t, r, _ => by simp only [evalAnd, denAll]; exact Rel.mk_ok r []
+  | c :: cs, t, r, hc => by
     obtain ⟨hc1, hc2⟩ := ctorErrL_cons hc
-    simp only [keysOKL, Bool.and_eq_true] at hk
-    have ih := eval_rel c t hc1 hk.1
+    have ih := eval_rel c t hc1 
     simp only [evalAnd, denAll]
     rcases ih.cases with ⟨a, l, h1, h2⟩ | ⟨e, og, l, h1, h2, hcl⟩ | ⟨e, l, h1, h2, hg⟩
     · simp only [h1, h2]
-      have ih2 := evalAnd_rel cs t a hc2 hk.2
+      have ih2 := evalAnd_rel cs t a hc2 
       exact ⟨ih2.1, by rw [ih2.2]⟩
     · simp only [h1, h2]; exact Rel.mk_rej l hcl
     · simp only [h1, h2]; exact Rel.mk_fault l hg
 
-theorem evalOr_rel : ∀ (cs : List Spec) (t : V), cs ≠ [] → ctorErrL cs = none → keysOKL cs = true →
+theorem evalOr_rel : ∀ (cs : List Spec) (t : V), cs ≠ [] → ctorErrL cs = none →
     Rel env (evalOr env cs t) (denAny env.cls cs t)
-  | [], _, hne, _, _ => absurd rfl hne
-  | [c], t, _, hc, hk => by
-    simp only [keysOKL, Bool.and_eq_true] at hk
+  | [], _, hne, _ => absurd rfl hne
+  | [c], t, _, hc => by
     simp only [evalOr, denAny]
-    exact eval_rel c t (ctorErrL_cons hc).1 hk.1
-  | c :: c' :: cs, t, _, hc, hk => by
+    exact eval_rel c t (ctorErrL_cons hc).1 
+  | c :: c' :: cs, t, _, hc => by
     obtain ⟨hc1, hc2⟩ := ctorErrL_cons hc
-    have hk' := hk
-    simp only [keysOKL, Bool.and_eq_true] at hk
-    have ih := eval_rel c t hc1 hk.1
+    have ih := eval_rel c t hc1 
     simp only [evalOr, denAny]
     rcases ih.cases with ⟨a, l, h1, h2⟩ | ⟨e, og, l, h1, h2, hcl⟩ | ⟨e, l, h1, h2, hg⟩
     · simp only [h1, h2]; exact Rel.mk_ok a l
     · simp only [h1, h2, catch_glom hw "Or._glomit" (by simp [catchSites]), classOK_glom hcl, if_true]
-      have ih2 := evalOr_rel (c' :: cs) t (by simp) hc2 (by simp [keysOKL, hk.2.1, hk.2.2])
+      have ih2 := evalOr_rel (c' :: cs) t (by simp) hc2
       exact ⟨ih2.1, by rw [ih2.2]⟩
     · simp only [h1, h2, catch_glom hw "Or._glomit" (by simp [catchSites]), hg]
       exact Rel.mk_fault l hg
 
 theorem evalSwitch_rel : ∀ (cases : List (Spec × Spec)) (d : Option Arg) (t : V),
-    ctorErrC cases = none → keysOKC cases = true →
+    ctorErrC cases = none →
     Rel env (evalSwitch env cases d t) (denCases env.cls cases d t)
-  | [], d, t, _, _ => by
+  | [], d, t, _ => by
     simp only [evalSwitch, denCases, withDefault, vreject]
     cases d with
     | none => exact raise_rel hw "Switch.glomit" 0 .comb [] (by simp [siteOrigins])
     | some a => exact argVal_rel hw a t []
-  | (k, v) :: rest, d, t, hc, hk => by
+  | (k, v) :: rest, d, t, hc => by
     obtain ⟨hc1, hc2, hc3⟩ := ctorErrC_cons hc
-    simp only [keysOKC, Bool.and_eq_true] at hk
-    have ih := eval_rel k t hc1 hk.1.1
+    have ih := eval_rel k t hc1 
     simp only [evalSwitch, denCases]
     rcases ih.cases with ⟨a, l, h1, h2⟩ | ⟨e, og, l, h1, h2, hcl⟩ | ⟨e, l, h1, h2, hg⟩
     · simp only [h1, h2]
-      have ih2 := eval_rel v t hc2 hk.1.2
+      have ih2 := eval_rel v t hc2 
       exact ⟨ih2.1, by rw [ih2.2]⟩
     · simp only [h1, h2, catch_glom hw "Switch.glomit" (by simp [catchSites]), classOK_glom hcl, if_true]
-      have ih2 := evalSwitch_rel rest d t hc3 hk.2
+      have ih2 := evalSwitch_rel rest d t hc3 
       exact ⟨ih2.1, by rw [ih2.2]⟩
     · simp only [h1, h2, catch_glom hw "Switch.glomit" (by simp [catchSites]), hg]
       exact Rel.mk_fault l hg
 
 theorem evalAlts_rel : ∀ (alts : List Spec) (item : V) (last : Option PyExc),
-    ctorErrL alts = none → keysOKL alts = true →
+    ctorErrL alts = none →
     AltRel env alts.isEmpty (evalAlts env alts item last) last (denAlt env.cls alts item)
-  | [], item, last, _, _ => by
+  | [], item, last, _ => by
     simp only [evalAlts, denAlt, vreject]
     exact ⟨rfl, Or.inl ⟨rfl, rfl, rfl⟩⟩
-  | [c], item, last, hc, hk => by
-    simp only [keysOKL, Bool.and_eq_true] at hk
-    have ih := eval_rel c item (ctorErrL_cons hc).1 hk.1
+  | [c], item, last, hc => by
+    have ih := eval_rel c item (ctorErrL_cons hc).1 
     simp only [evalAlts, denAlt]
     rcases ih.cases with ⟨a, l, h1, h2⟩ | ⟨e, og, l, h1, h2, hcl⟩ | ⟨e, l, h1, h2, hg⟩
     · simp only [h1, h2]; exact ⟨rfl, rfl⟩
@@ -1056,16 +1082,15 @@ theorem evalAlts_rel : ∀ (alts : List Spec) (item : V) (last : Option PyExc),
       exact ⟨by simp, Or.inr ⟨rfl, e, rfl, hcl⟩⟩
     · simp only [h1, h2, catch_glom hw "_glom_match/listlike" (by simp [catchSites]), hg]
       exact ⟨rfl, rfl, hg⟩
-  | c :: c' :: cs, item, last, hc, hk => by
+  | c :: c' :: cs, item, last, hc => by
     obtain ⟨hc1, hc2⟩ := ctorErrL_cons hc
-    simp only [keysOKL, Bool.and_eq_true] at hk
-    have ih := eval_rel c item hc1 hk.1
+    have ih := eval_rel c item hc1 
     rw [evalAlts, denAlt]
     rcases ih.cases with ⟨a, l, h1, h2⟩ | ⟨e, og, l, h1, h2, hcl⟩ | ⟨e, l, h1, h2, hg⟩
     · simp only [h1, h2]; exact ⟨rfl, rfl⟩
     · simp only [h1, h2, catch_glom hw "_glom_match/listlike" (by simp [catchSites]),
         classOK_glom hcl, if_true]
-      have ih2 := evalAlts_rel (c' :: cs) item (some e) hc2 (by simp [keysOKL, hk.2.1, hk.2.2])
+      have ih2 := evalAlts_rel (c' :: cs) item (some e) hc2
       obtain ⟨i1, i2⟩ := ih2
       refine ⟨by simp only [i1], ?_⟩
       revert i2
@@ -1074,18 +1099,17 @@ theorem evalAlts_rel : ∀ (alts : List Spec) (item : V) (last : Option PyExc),
     · simp only [h1, h2, catch_glom hw "_glom_match/listlike" (by simp [catchSites]), hg]
       exact ⟨rfl, rfl, hg⟩
 
-theorem evalZip_rel : ∀ (ps : List Spec) (xs : List V), ctorErrL ps = none → keysOKL ps = true →
+theorem evalZip_rel : ∀ (ps : List Spec) (xs : List V), ctorErrL ps = none →
     ItemsRel env (evalZip env ps xs) (denZip env.cls ps xs)
-  | [], xs, _, _ => by simp only [evalZip, denZip]; exact ⟨rfl, rfl⟩
-  | _ :: _, [], _, _ => by simp only [evalZip, denZip]; exact ⟨rfl, rfl⟩
-  | p :: ps, x :: xs, hc, hk => by
+  | [], xs, _ => by simp only [evalZip, denZip]; exact ⟨rfl, rfl⟩
+  | _ :: _, [], _ => by simp only [evalZip, denZip]; exact ⟨rfl, rfl⟩
+  | p :: ps, x :: xs, hc => by
     obtain ⟨hc1, hc2⟩ := ctorErrL_cons hc
-    simp only [keysOKL, Bool.and_eq_true] at hk
-    have ih := eval_rel p x hc1 hk.1
+    have ih := eval_rel p x hc1 
     simp only [evalZip, denZip]
     rcases ih.cases with ⟨a, l, h1, h2⟩ | ⟨e, og, l, h1, h2, hcl⟩ | ⟨e, l, h1, h2, hg⟩
     · simp only [h1, h2]
-      have ih2 := evalZip_rel ps xs hc2 hk.2
+      have ih2 := evalZip_rel ps xs hc2 
       obtain ⟨i1, i2⟩ := ih2
       refine ⟨by simp only [i1], ?_⟩
       revert i2
@@ -1094,20 +1118,18 @@ theorem evalZip_rel : ∀ (ps : List Spec) (xs : List V), ctorErrL ps = none →
     · simp only [h1, h2]; exact ⟨rfl, rfl, hg⟩
 
 theorem dictFind_rel : ∀ (es : List (KeyKind × Spec × Spec)) (i : Nat) (key val : V),
-    ctorErrD es = none → keysOKD es = true →
+    ctorErrD es = none →
     FindRel env (dictFind env es i key val) (denKey env.cls es i key val)
-  | [], i, key, val, _, _ => by simp only [dictFind, denKey]; exact ⟨rfl, trivial⟩
-  | (kind, ks, vs) :: es, i, key, val, hc, hk => by
-    obtain ⟨hc1, hc2, hc3⟩ := ctorErrD_cons hc
-    simp only [keysOKD, Bool.and_eq_true] at hk
-    obtain ⟨⟨⟨_, hk1⟩, hk2⟩, hk3⟩ := hk
-    have ihv := eval_rel vs val hc2 hk2
-    have ihr := dictFind_rel es (i + 1) key val hc3 hk3
+  | [], i, key, val, _ => by simp only [dictFind, denKey]; exact ⟨rfl, trivial⟩
+  | (kind, ks, vs) :: es, i, key, val, hc => by
+    obtain ⟨hc1, hc2, hc3, _⟩ := ctorErrD_cons hc
+    have ihv := eval_rel vs val hc2
+    have ihr := dictFind_rel es (i + 1) key val hc3
     have hcatch := catch_glom hw "_handle_dict" (by simp [catchSites])
     cases ho : optKey kind ks with
     | none =>
       simp only [dictFind, denKey, ho]
-      rcases (eval_rel ks key hc1 hk1).cases with ⟨a, l, h1, h2⟩ | ⟨e, og, l, h1, h2, hcl⟩ | ⟨e, l, h1, h2, hg⟩
+      rcases (eval_rel ks key hc1).cases with ⟨a, l, h1, h2⟩ | ⟨e, og, l, h1, h2, hcl⟩ | ⟨e, l, h1, h2, hg⟩
       · simp only [h1, h2]
         rcases ihv.cases with ⟨a', l', g1, g2⟩ | ⟨e', og', l', g1, g2, gcl⟩ | ⟨e', l', g1, g2, gg⟩
         · simp only [g1, g2]; exact ⟨rfl, rfl, rfl, rfl⟩
